@@ -252,6 +252,48 @@ def makeInstance (s : State) (c : Name) (args : List (Name × Val)) : Except Err
     let sds := slotDefsOf s p
     if args.all (fun a => validArg sds a.1) then .ok (build sds (args ++ defaultsOf s c)) else .error .badInitarg
 
+/-! ## which initforms are evaluated (extension round 4)
+
+  An initform is a *form*: evaluating it may have effects and yields a fresh value per instance.
+  `build` evaluates, for every effective slot that no supplied / default initarg reached, the most
+  specific initform of that slot — and no other form. -/
+
+/-- the direct slot definitions of class `k` (none when `k` is not defined) -/
+def ownSlots (s : State) (k : Name) : List SlotDef :=
+  match defOf s k with
+  | some d => d.slots
+  | none => []
+
+/-- the class whose initform for slot `x` is used: the first class of the precedence list whose own
+    definition of `x` carries an initform -/
+def formOwner (s : State) : List Name → Name → Option Name
+  | [], _ => none
+  | k :: ks, x => if (initformFor (ownSlots s k) x).isSome then some k else formOwner s ks x
+
+def evalCell (sds : List SlotDef) (c : Cell) : Option (Name × Val) :=
+  if c.set then none else (initformFor sds c.name).map (fun v => (c.name, v))
+
+/-- the initforms evaluated while building an instance: (slot, value of the form) -/
+def evaluated (sds : List SlotDef) (args : List (Name × Val)) : List (Name × Val) :=
+  (applyArgs sds args (blank sds)).filterMap (evalCell sds)
+
+/-- the forms evaluated by `(make-instance c args…)`, each with the class that owns the form -/
+def evaluatedBy (s : State) (c : Name) (args : List (Name × Val)) : Option (List (Name × Name × Val)) :=
+  match precOf s c with
+  | none => none
+  | some p =>
+    let sds := slotDefsOf s p
+    if args.all (fun a => validArg sds a.1) then
+      some ((evaluated sds (args ++ defaultsOf s c)).filterMap
+        (fun xv => (formOwner s p xv.1).map (fun k => (k, xv.1, xv.2))))
+    else none
+
+/-- the order in which `:after` methods (initialize-instance, shared-initialize) specialised on the
+    classes `methods` run for an instance of `c`: least specific first, i.e. the applicable methods
+    in reverse precedence order -/
+def afterOrder (s : State) (c : Name) (methods : List Name) : Option (List Name) :=
+  (applicable s c methods).map List.reverse
+
 /-- two different supplied initargs reach the same slot: the property does not say which wins
     (slip signals an error, Common Lisp takes the leftmost); the harness accepts either -/
 def ambiguous (sds : List SlotDef) (args : List (Name × Val)) : Bool :=
